@@ -88,6 +88,9 @@ def type_of(v, reg=None):
     if type(v).__name__ == "SDictV":
         from .dicts import TDict
         return TDict()
+    if type(v).__name__ == "SChar":
+        from .chars import TChar
+        return TChar()
     if type(v).__name__ == "SRef":
         from .refs import TRef
         return TRef(v.model, v.reg)
@@ -207,6 +210,12 @@ def eq(a, b, ctx):
         return False
     if not is_sym(a) and not is_sym(b) and not _contains_sym(a) and not _contains_sym(b):
         return a == b
+    if type(a).__name__ == "SChar" or type(b).__name__ == "SChar" or (
+            isinstance(a, SList) and type(a.elem).__name__ == "TChar") or (isinstance(b, SList) and type(b.elem).__name__ == "TChar"):
+        from .chars import eq_hook
+        r = eq_hook(a, b, ctx)
+        if r is not None:
+            return r
     if is_numeric(a) and is_numeric(b):
         ta, ra = num_term(a)
         tb, rb = num_term(b)
